@@ -7,6 +7,7 @@ import subprocess
 import time
 
 import h5vlib as H
+from props import hdrchain
 
 LEVEL = "fault_enumeration"
 ASSUME = ["all byte strings are represented by: every candidate field (every offset of the metadata of a base file x widths 1,2,4,8) set to boundary values, "
@@ -71,7 +72,12 @@ def run(ctx):
     verdict, vs = ctx.validate("C07Trace.tla", "C07_trace.cfg", trace)
     nviol, known = H.report(ctx, verdict["bad"], lambda i: cases[i], trace)
     st = verdict["stats"]
+    # object header chains: every small shape TLC derives from HeaderChain.tla as real bytes (panic / hang = violation)
+    hfatal, hcases, htrace, hcov = hdrchain.run_family(ctx, thorough)
+    hviol, hknown = H.report(ctx, hfatal, lambda i: {"hdrchain": hcases[i]}, htrace)
+    nviol, known = nviol + hviol, known + hknown
     cov = {
+        "header_chain_family": hcov,
         "evaluations": st["inputs"],
         "distinct_nontrivial": st["inputs"] - len(cases),
         "rule": "inputs = mutants of %d base files (%d library-written covering symbol-table and link-message groups, compact and dense attributes, "
@@ -95,6 +101,12 @@ def run(ctx):
 def replay(ctx, body):
     """Replays the exemplar mutations of a rejected bucket on their base file."""
     ctx.build()
+    if "hdrchain" in body["case"]:
+        path = ctx.write_cases([body["case"]["hdrchain"]])
+        trace, _ = ctx.drive("hdrchain", path)
+        verdict, _ = ctx.validate("HdrChainTrace.tla", "HdrChain_trace.cfg", trace)
+        H.log("VERDICT " + json.dumps(verdict))
+        return 1 if verdict["bad"] else 0
     case = dict(body["case"])
     diag = body.get("diag", {})
     case["classes"] = []
